@@ -199,6 +199,7 @@ def cmdTypos (args : List String) : String :=
       match pos with
       | "init" => b2s (initOk b a)
       | "assign" => b2s (assignOk b a)
+      | "return" => b2s (returnOk b a)
       | "cast" => b2s (castOk a b)
       | _ => "bad-request"
     | _, _ => "bad-type"
@@ -459,6 +460,29 @@ def cmdModinit (args : List String) : String :=
       | _ => none
     let g : DDP.Modules.Graph := fun m => ((table.find? (·.1 == m)).map (·.2)).getD []
     ",".intercalate ((DDP.Modules.initSeq g fuel.toNat! (nums imports)).map toString)
+  | _ => "bad-request"
+
+/-- files below a directory as a tree: a path `a/b/m.ddp` goes into directory `a`, then `b` -/
+def insertPath : List String → Nat → List DDP.Modules.DirEntry → List DDP.Modules.DirEntry
+  | [], _, es => es
+  | [f], m, es => es ++ [.file f m]
+  | d :: rest, m, es =>
+    if es.any (fun e => match e with | .dir n _ => n == d | _ => false) then
+      es.map (fun e => match e with
+        | .dir n sub => if n == d then .dir n (insertPath rest m sub) else .dir n sub
+        | f => f)
+    else es ++ [.dir d (insertPath rest m [])]
+
+/-- `dirwalk <0/1 recursive> <path=module,…>`: the modules a directory import brings in, in order -/
+def cmdDirWalk (args : List String) : String :=
+  match args with
+  | [r, spec] =>
+    let files := if spec == "-" then [] else (spec.splitOn ",").filterMap fun e =>
+      match e.splitOn "=" with
+      | [p, m] => some (p.splitOn "/", m.toNat!)
+      | _ => none
+    let tree := files.foldl (fun t (p, m) => insertPath p m t) []
+    ",".intercalate ((DDP.Modules.dirImport (r == "1") tree).map toString)
   | _ => "bad-request"
 
 /-- `visible <name>:<0/1 public>,… <listed names or ->`: the names an import makes visible, or `error` -/
@@ -825,6 +849,7 @@ def dispatch (line : String) : String :=
   | "unify" :: args => cmdUnify args
   | "modinit" :: args => cmdModinit args
   | "visible" :: args => cmdVisible args
+  | "dirwalk" :: args => cmdDirWalk args
   | "sortaliases" :: args => cmdSortAliases args
   | "resolve" :: args => cmdResolve args
   | "aliasmatch" :: args => cmdAliasMatch args
